@@ -5,6 +5,8 @@
 From Coq Require Import List ZArith NArith String Bool.
 From IprV Require Import GenTypes RBModel RBProofs Comparators Unify Arena ArenaProofs Lexicon LexiconProofs LexTables GenCheck LexInst.
 From IprV.gen Require Import GenCmp GenWords.
+From IprV Require Derived CompareSource.
+From IprV.gen Require GenDerived.
 Import ListNotations.
 
 (* For every history of requests (every interleaving, every operand choice):
@@ -92,6 +94,41 @@ Example c01_nonvacuous :
   = [Some (Dyn 0); Some (Dyn 2); Some (Dyn 2); Some (Dyn 3); Some (Dyn 3); Some (Dyn 0); None].
 Proof. vm_compute. reflexivity. Qed.
 
+(* the leaf comparisons as they stand in the source (CompareSource.v over the regenerated GenDerived / GenCmp) *)
+Theorem c01_linkage_order_is_by_language : forall (I : Derived.interp) fuel a b,
+  CompareSource.cmp I (20 + fuel) "ipr::Linkage" a b =
+  CompareSource.cmp I (20 + fuel) "ipr::Logogram" (CompareSource.acc I (20 + fuel) "Linkage::language" a) (CompareSource.acc I (20 + fuel) "Linkage::language" b).
+Proof. exact CompareSource.linkage_order_is_by_language. Qed.
+
+Theorem c01_convention_order_is_by_name : forall (I : Derived.interp) fuel a b,
+  CompareSource.cmp I (20 + fuel) "ipr::Calling_convention" a b =
+  CompareSource.cmp I (20 + fuel) "ipr::Logogram" (CompareSource.acc I (20 + fuel) "Calling_convention::name" a) (CompareSource.acc I (20 + fuel) "Calling_convention::name" b).
+Proof. exact CompareSource.convention_order_is_by_name. Qed.
+
+Theorem c01_transfer_order_is_lexicographic : forall (I : Derived.interp) fuel a b,
+  CompareSource.cmp I (20 + fuel) "ipr::Transfer" a b =
+  match CompareSource.cmp I (20 + fuel) "ipr::Linkage" (CompareSource.acc I (20 + fuel) "Transfer::linkage" a) (CompareSource.acc I (20 + fuel) "Transfer::linkage" b) with
+  | Derived.VZ 0 => CompareSource.cmp I (20 + fuel) "ipr::Calling_convention" (CompareSource.acc I (20 + fuel) "Transfer::convention" a) (CompareSource.acc I (20 + fuel) "Transfer::convention" b)
+  | Derived.VZ z => Derived.VZ z
+  | _ => Derived.VErr "three-way result"
+  end.
+Proof. exact CompareSource.transfer_order_is_lexicographic. Qed.
+
+Theorem c01_node_order_is_by_address : forall (I : Derived.interp) fuel a b this,
+  match Derived.lookup_row GenDerived.gen_derived "::compare(ipr::Node)" with
+  | Some (_, body) => Derived.eval GenDerived.gen_derived I (20 + fuel) this [a; b] body
+  | None => Derived.VErr "no such overload"
+  end = Derived.prim I "::compare(ipr::Node*)" this [a; b].
+Proof. exact CompareSource.node_order_is_by_address. Qed.
+
+Theorem c01_value_operands_resolve_to_value_overloads : CompareSource.calls_ok gen_compare_calls = true.
+Proof. exact CompareSource.value_operands_resolve_to_value_overloads. Qed.
+
+Print Assumptions c01_linkage_order_is_by_language.
+Print Assumptions c01_convention_order_is_by_name.
+Print Assumptions c01_transfer_order_is_lexicographic.
+Print Assumptions c01_node_order_is_by_address.
+Print Assumptions c01_value_operands_resolve_to_value_overloads.
 Print Assumptions c01_types_unified.
 Print Assumptions c01_answers_stable.
 Print Assumptions c01_default_exception_spec.
